@@ -30,8 +30,9 @@ def oracle_check(ctx, scns, impl, model, chains):
         live = GH.utxo_oracle(blocks[lo:hi], lo, lambda sc: addr[(K.VERSION[s.coin], sc)] is not None)
         want = sorted("%s;%d;%d;%d;%s" % (tid[::-1].hex(), i, h, v, addr[(K.VERSION[s.coin], sc)]) for (tid, i), (h, v, sc) in live.items())
         name = next((n for n in res.final_files() if n.startswith("unspent-")), None)
-        got = sorted(res.rows(name)[1:]) if name else None
-        header = res.rows(name)[0] if name else None
+        rows_ = res.rows(name) if name else []
+        got = sorted(rows_[1:]) if name else None
+        header = rows_[0] if rows_ else None
         if got != want or header != "txid;indexOut;height;value;address":
             sa, sb = set(got or []), set(want)
             ctx.disagree("oracle", bb.describe(s), {"only_impl": sorted(sa - sb)[:3], "n": len(got or []), "header": header, "duplicates": len(got or []) - len(sa)}, {"only_oracle": sorted(sb - sa)[:3], "n": len(want)}, True,
